@@ -41,7 +41,7 @@ pub fn clear_restores_prefix() {
 emf_harness! {
 // @check C14 quick timeout=1500 mem=14
 // @encodes emf::ValueWriter::write_metric_value (counts.clear() before and after use), write_observation
-// @bounds counts buffer pre-loaded with leftover `X,X` from a hypothetical earlier entry; 2 observations of 6 kinds; multiplicity None/Some(any)
+// @bounds counts buffer pre-loaded with leftover `X,X` from a hypothetical earlier entry; observations Unsigned(any u64), Floating(any f64 incl. NaN); multiplicity None/Some(any)
 // @oracle no byte `X` anywhere in the fields buffer afterwards (symbolic index), counts buffer empty, Counts list starts right after its prefix with a digit
 // @stubs tracing x4, Instant::now, alloc::fmt::format, String::push/push_str/shrink_to, Vec::extend_from_slice, itoa::Buffer::format, dtoa::Buffer::format_finite
 // @outside the five clears at the top of format_with_multiplicity and the dimension-set map (whole-formatter state; see DESIGN.md C14)
@@ -49,10 +49,9 @@ pub fn stale_counts_do_not_leak() {
     let mut b = bufs();
     stubs::reset_logs();
     b.counts.push_raw_str("X,X");
-    let k0: u8 = kani::any();
-    let k1: u8 = kani::any();
-    kani::assume(k0 < N_KINDS && k1 < N_KINDS);
-    let (o0, o1) = (obs_of_kind(k0), obs_of_kind(k1));
+    // kinds fixed (a solver-chosen kind makes total/occurrences a symbolic division, see lists.rs); payloads symbolic:
+    // Unsigned(any) then Floating(any) - the second may be skipped (NaN) or written
+    let (o0, o1) = (obs_of_kind(0), obs_of_kind(1));
     let mult: Option<u64> = if kani::any() { Some(kani::any()) } else { None };
     let pre = b.fields.as_str().len();
     let wrote = hooks::write_metric_value("m", &mut b.fields, &mut b.counts, o0, [o1].into_iter(), mult);
